@@ -190,13 +190,39 @@ func genC10(seed uint64, tier string) *plan.Plan {
 			}
 			now += d
 			pl.Ops = append(pl.Ops, plan.Op{K: "adv", A: int64(d)})
+		case x < 84 && cur[ki] != nil && pl.Cfg["member"] == 0:
+			// the whole situation in one go: key ki's lifetime runs out, its timer fires, and its
+			// callback runs on a goroutine of its own while a refresh / replacement / bad template
+			// for the same key is being decoded
+			if exp := lastTx[ki] + TTL; exp > now {
+				pl.Ops = append(pl.Ops, plan.Op{K: "adv", A: int64(exp - now)})
+				now = exp
+			}
+			pl.Ops = append(pl.Ops, plan.Op{K: "fire", A: 0}, plan.Op{K: "fire", A: 0}, plan.Op{K: "runcb", A: int64(r.IntN(2)), B: 1})
+			switch r.IntN(3) {
+			case 0:
+				lastTx[ki] = now
+				pl.Ops = append(pl.Ops, plan.Op{K: "msg", A: int64(ki), X: hex.EncodeToString(cur[ki].templateMsg(hdr())), S: "refresh"})
+			case 1:
+				t := genTemplate(r, k.dom, k.id, tmplOpts{maxFields: 3})
+				for len(t.Fields) == 0 {
+					t = genTemplate(r, k.dom, k.id, tmplOpts{maxFields: 3})
+				}
+				cur[ki] = &t
+				lastTx[ki] = now
+				pl.Ops = append(pl.Ops, plan.Op{K: "msg", A: int64(ki), X: hex.EncodeToString(t.templateMsg(hdr())), S: "replace"})
+			default:
+				pl.Ops = append(pl.Ops, plan.Op{K: "msg", A: int64(ki), X: hex.EncodeToString(cur[ki].dataMsg(hdr(), cur[ki].dataBody(r, 1, 5, false, false))), S: "data"})
+			}
 		case x < 90:
 			pl.Ops = append(pl.Ops, plan.Op{K: "fire", A: int64(r.IntN(8))})
 		default:
-			pl.Ops = append(pl.Ops, plan.Op{K: "runcb", A: int64(r.IntN(8))})
+			// B=1: the callback runs on its own goroutine while the next message is being decoded
+			// (the scheduler interleaves the two at every lock acquisition and preemption)
+			pl.Ops = append(pl.Ops, plan.Op{K: "runcb", A: int64(r.IntN(8)), B: int64(r.IntN(2))})
 		}
 	}
-	genSchedule(r, pl, 2, 2000)
+	genSchedule(r, pl, 4, 2000)
 	return pl
 }
 
@@ -312,6 +338,7 @@ func runC10(pl *plan.Plan, out *plan.Outcome) {
 			}
 			return true
 		}
+		var cbDone chan struct{} // a callback running concurrently with the current op
 		for i, op := range pl.Ops {
 			where := fmt.Sprintf("after op %d (%s %s)", i, op.K, op.S)
 			switch op.K {
@@ -327,7 +354,8 @@ func runC10(pl *plan.Plan, out *plan.Outcome) {
 					env.Sleep(time.Nanosecond)
 				}
 				// the table may legitimately have lost expired templates: sync before computing the expectation
-				if !check(fmt.Sprintf("before op %d", i), false) {
+				// (not while a callback is in flight on another goroutine: the table is in motion)
+				if cbDone == nil && !check(fmt.Sprintf("before op %d", i), false) {
 					return
 				}
 				exp := model.step(b)
@@ -381,10 +409,25 @@ func runC10(pl *plan.Plan, out *plan.Outcome) {
 						if h := heldTimer(cp, t); h == nil || t.armed {
 							racy++
 						}
-						Block("callback", func() { t.runCallback() })
 						env.Count("c10.callbacks_run", 1)
+						if op.B == 1 && i+1 < len(pl.Ops) && pl.Ops[i+1].K == "msg" {
+							done := make(chan struct{})
+							cbDone = done
+							env.Go("expiry-callback", func() {
+								defer close(done)
+								t.runCallback()
+							})
+							env.Count("probe.callback_concurrent_with_next_message", 1)
+							env.Logf("op %d runcb (concurrent)", i)
+							continue // judged after the next op, when both have finished
+						}
+						Block("callback", func() { t.runCallback() })
 					}
 				}
+			}
+			if cbDone != nil {
+				Block("callback-join", func() { <-cbDone })
+				cbDone = nil
 			}
 			env.Logf("op %d %s %s", i, op.K, op.S)
 			if !check(where, !simMember && op.K == "adv" && op.A > 0) {
